@@ -36,3 +36,15 @@ Proof.
   intros T. destruct (table_ok_facts pop unop pprec prassoc puprec PINF pops_all unops_all pops_complete unops_complete T) as [A [B [C D]]].
   exact (dprint_parse_roundtrip pop unop nat nat pprec prassoc puprec PINF A B D).
 Qed.
+
+(* soundness: whatever tree the parser returns is a reading of the tokens that respects the table *)
+From PV Require Import Proofs.PrattSound.
+Lemma prql_parse_sound : table_ok pop unop pprec prassoc puprec PINF pops_all unops_all = true ->
+  forall fuel ts e, gparse fuel 0 ts = Some (e, []) ->
+  exists n d, erase d = e /\ dok pop unop nat nat pprec prassoc puprec PINF d = true /\ ts = wrap n (dprint pop unop nat nat d).
+Proof.
+  intros T. destruct (table_ok_facts pop unop pprec prassoc puprec PINF pops_all unops_all pops_complete unops_complete T) as [A [B [C D]]].
+  apply (parse_sound pop unop nat nat pprec prassoc puprec PINF A B C).
+  - intros u o. destruct o as [b|]; [destruct b|]; vm_compute; lia.
+  - intros u u'. reflexivity.
+Qed.
